@@ -37,6 +37,7 @@ class PlanTracker:
             lst = self.plans[region]
             pos = [i for i, t in enumerate(lst) if t[3] == tid]
             if tid == -1 and 0 <= idx < len(lst) and lst[idx][3] == -1: pos = [idx]      # tasks without payload are told apart by position
+            if idx == -1 and tid == -1: pos = [i for i, t in enumerate(lst) if t[3] == -1][-1:]   # yielded after appends during iteration: position unknown
             if not pos: viol('C07', 'remove|iteration-yielded-a-task-the-region-does-not-hold', {'region': region, 'id': tid, 'shadow': [t[3] for t in lst]})
             else: lst.pop(pos[0])
             return 'remove'
